@@ -36,7 +36,7 @@ ASSUMPTIONS = [
     "functions whose outputs each derive from a single argument (broadcast_arrays, meshgrid) or that evaluate an index argument eagerly (take / indexing with a cubed array) may accept, provided no returned array's plan contains both inputs",
     "reference grammar for literals: optional spaces, decimal number with optional fraction/exponent, optional unit in {B,kB,MB,GB,TB,PB}",
 ]
-NSHARDS = {"quick": 16, "thorough": 32}
+NSHARDS = {"quick": 16, "thorough": 16}
 UNITS = {"": 1, "B": 1, "kB": 1000, "MB": 1000**2, "GB": 1000**3, "TB": 1000**4, "PB": 1000**5}
 _NUM = re.compile(r"^[0-9]+(\.[0-9]*)?([eE][+-]?[0-9]+)?$|^\.[0-9]+([eE][+-]?[0-9]+)?$")
 
@@ -495,10 +495,10 @@ def finalize(tier, merged):
     return {
         "rule": RULE,
         "floors": [
-            ("size literals judged against the exact parser", c.get("literals", 0), 30000 if tier == "quick" else 1000000),
+            ("size literals judged against the exact parser", c.get("literals", 0), 30000 if tier == "quick" else 500000),
             ("mixed-spec calls judged (entry point x field x order)", c.get("mixed_spec_calls", 0), 600, ),
             ("config-derived spec cases (field x creation order)", c.get("config_spec_cases", 0), 16),
-            ("icontract evaluations on convert_to_bytes", c.get("contract_evaluations", 0), 20000 if tier == "quick" else 600000),
+            ("icontract evaluations on convert_to_bytes", c.get("contract_evaluations", 0), 20000 if tier == "quick" else 300000),
             ("multi-array public functions found by introspection but not in the entry-point table (must be 0)", -len(missing), 0),
         ],
         "coverage_extra": {"entry_points": sorted(covered), "introspected_multi_array_functions": sorted(found), "not_in_table": missing},
